@@ -31,6 +31,8 @@ PROFILES = [
     ('kern_core', {'p_hidden_bar': 0.85, 'min_spines': 2, 'measures': (3, 5), 'p_split': 0.4, 'rows': (1, 2)}),
     # a whole spine ends (*-) in the middle of the score - the first column as often as any other - and the others go on
     ('kern_core', {'p_spine_end': 0.2, 'min_spines': 2, 'max_spines': 4, 'measures': (3, 6), 'rows': (2, 4), 'p_split': 0.1}),
+    # empty measures between barlines that read the same (no numbers, or one number on all of them): neighbouring rows that are equal
+    ('kern_core', {'empty_measures': 0.45, 'bar_numbers': 0.15, 'measures': (4, 8), 'rows': (1, 2), 'max_spines': 2, 'p_split': 0.05}),
     # the same in scores with lyrics / dynamics / harmony beside the **kern spines (only the **kern spines are exported)
     ('mixed_core', {'p_spine_end': 0.25, 'min_spines': 3, 'measures': (3, 6), 'rows': (2, 3), 'p_split': 0.05}),
 ]
@@ -67,6 +69,18 @@ EXPLORED = [
 
 
 def build(cs, pname, over):
+    if over.get('unterminated'):
+        # a score whose text simply ends (no '*-' row, nothing after the last record of music): kernpy reads it, and its measures are
+        # its measures
+        over = {k_: v_ for k_, v_ in over.items() if k_ != 'unterminated'}
+        doc, pn = build(cs, pname, dict(over, p_post_gcomment=0.0, p_early_term=0.0))
+        while doc.lines and (doc.lines[-1].kind in ('g', 'b') or
+                             (doc.lines[-1].kind == 'op' and all(c.text == '*-' for c in doc.lines[-1].cells))):
+            doc.lines.pop()
+        doc._infos = None
+        doc.tags.add('unterminated')
+        doc.infos()
+        return doc, pn
     if pname == 'mixed_core':
         return make_doc(cs, 'kern_core', **dict(dict(types=('**kern', '**kern', '**text', '**dynam', '**harm'), min_spines=2,
                                                      max_spines=4, split_kern_only=True), **over))
